@@ -49,6 +49,22 @@ func c12(c *Ctx) {
 	c05semInsts(c, []semInst{{"C12.R10", "core/threading", "(*TaskRunner).Schedule", false, "field:limitChan", "field:waitGroup", nil, "task"}})
 	// the in-memory cache is the wheel's main client: it must move/set the key's timer with the expiry of this call
 	c16cacheAs(c, "C12.R7", true)
+	// R11 (round 8): the tasks due at one tick are started from a loop — no closure started there captures the loop's
+	// variable by reference (the module's Go version predates per-iteration loop variables: every goroutine would run the
+	// last task, the others never fire)
+	{
+		var bad []string
+		nfun := 0
+		for _, fn := range c.P.AllFuncs(colPkg) {
+			if fn.Parent() != nil {
+				continue
+			}
+			nfun++
+			bad = append(bad, loopVarCaptures(c, fn)...)
+		}
+		sort.Strings(bad)
+		c.R.Check(len(bad) == 0 && nfun > 20, "C12.R11", colPkg+"#loopvars", "no closure started from inside a loop of core/collection captures the loop's variable by reference (each due timer is run by its own task)", "-", strings.Join(bad, "; "), bad, nfun)
+	}
 }
 
 // c12drainCoverage (R8): Drain delivers *each* pending timer — the drain loop visits every slot of the wheel
